@@ -81,7 +81,7 @@ def planar(segs, P):
     return best, second
 
 
-def make_case(rng, fault):
+def make_case(rng, fault, collinear=None):
     nseg = rng.choice([1, 1, 2, 3, 4])
     segs, sj = [], []
     a_prev = None
@@ -104,7 +104,11 @@ def make_case(rng, fault):
     mid = [(A[0] + B[0]) / 2, (A[1] + B[1]) / 2]
     dip_pt = [mid[0] + nh[0] * rng.choice([1e5, 1e7]), mid[1] + nh[1] * rng.choice([1e5, 1e7])]
     mind = rng.choice([0, 0, 10e3, 50e3])
-    f = {"model": "fault" if fault else "subducting plate", "name": "s", "coordinates": [A, B], "dip point": dip_pt, "min depth": mind, "max depth": rng.choice([660e3, 400e3]), "segments": sj,
+    coords = [A, B]
+    if collinear:
+        m = collinear
+        coords = [A, [A[0] + (B[0] - A[0]) * m, A[1] + (B[1] - A[1]) * m], B]
+    f = {"model": "fault" if fault else "subducting plate", "name": "s", "coordinates": coords, "dip point": dip_pt, "min depth": mind, "max depth": rng.choice([660e3, 400e3]), "segments": sj,
          "composition models": [{"model": "uniform", "compositions": [0]}]}
     w = {"version": "1.1", "features": [f]}
     return w, segs, A, B, nh, ln, az, mind, f["max depth"]
@@ -114,9 +118,22 @@ def oracle(seed, tier):
     rng = random.Random(seed * 2657 + 6)
     wdir = proto.workdir("C06_oracle")
     viol, cases, nontriv, samples, dist = [], 0, 0, [], {"straight": 0, "arc": 0, "fault": 0, "slab": 0}
-    for wi in range(budget(tier, 40, 500)):
+    nmain = budget(tier, 40, 500)
+    for wi in range(nmain + budget(tier, 6, 40)):
         fault = wi % 3 == 2
-        w, segs, A, B, nh, ln, az, mind, maxd = make_case(rng, fault)
+        # the last worlds: the same straight trench given by three collinear coordinates (interior coordinate at fraction m)
+        m = None if wi < nmain else rng.choice([0.5, 0.5, 0.25, 0.6])
+        w, segs, A, B, nh, ln, az, mind, maxd = make_case(rng, fault, m)
+        if m is not None and wi % 2 == 0:
+            # axis-aligned: the cross products of the side tests are exactly zero
+            az = rng.choice([0.0, math.pi / 2]); side = rng.choice([-1, 1])
+            A = [rng.choice([0.0, -300e3]), rng.choice([0.0, 200e3])]
+            B = [A[0] + ln * round(math.cos(az)), A[1] + ln * round(math.sin(az))]
+            nh = [-round(math.sin(az)) * side, round(math.cos(az)) * side]
+            f0 = w["features"][0]
+            f0["coordinates"] = [A, [A[0] + (B[0] - A[0]) * m, A[1] + (B[1] - A[1]) * m], B]
+            f0["dip point"] = [(A[0] + B[0]) / 2 + nh[0] * 1e5, (A[1] + B[1]) / 2 + nh[1] * 1e5]
+        dist["collinear-3-coordinates"] = dist.get("collinear-3-coordinates", 0) + (1 if m is not None else 0)
         dist["fault" if fault else "slab"] += 1
         for sg in segs:
             dist["straight" if abs(sg[1] - sg[2]) < 1e-12 else "arc"] += 1
@@ -125,19 +142,31 @@ def oracle(seed, tier):
         geo = [(sg[0], sg[1], sg[2]) for sg in segs]
         Ltot = sum(sg[0] for sg in segs)
         pts, lines = [], ["world w %s -" % path]
-        for _ in range(budget(tier, 25, 40)):
+        npts = budget(tier, 25, 40)
+        for pi in range(npts + (6 if m is not None else 0)):
             al = rng.uniform(0.03, 0.97)
             u = rng.uniform(-150e3, 500e3); v = rng.uniform(0, 450e3)
+            if pi >= npts:
+                # deterministic probes just before the interior coordinate, a little below the start of the surface
+                al = m * (1 - [0.01, 0.02, 0.03, 0.04, 0.05, 0.06][pi - npts])
+                a0 = segs[0][1]
+                t = rng.uniform(0.1, 0.6) * segs[0][0]
+                u = t * math.cos(a0) + 3e3 * math.sin(a0); v = t * math.sin(a0) - 3e3 * math.cos(a0)
+                if v < 0:
+                    u, v = t * math.cos(a0), t * math.sin(a0)
             x = A[0] + (B[0] - A[0]) * al + nh[0] * u; y = A[1] + (B[1] - A[1]) * al + nh[1] * u
             d = mind + v
-            pts.append((u, v, d))
+            pts.append((u, v, d, al))
             lines.append("dist w s %s %s %s %s" % (fhex(x), fhex(y), fhex(1000e3 - d), fhex(d)))
             lines.append(q3("w", [x, y, 1000e3 - d], d, [(4, 0, 0)]))
         rc, out, err = proto.run_harness(lines)
         if rc != 0 or len(out) != len(lines) or out[0] != "ok":
             viol.append({"what": "library failed: rc=%s %s %s" % (rc, out[:1], err[-200:]), "world_json": w}); continue
         tol = 1e-6 * ln
-        for k, (u, v, d) in enumerate(pts):
+        for k, (u, v, d, al) in enumerate(pts):
+            # three collinear coordinates: the library's trench curve overshoots the interior coordinate (recorded known finding); a mismatch whose foot lies within 15 % of the
+            # shorter piece of it is attributed to that finding
+            joint = m is not None and abs(al - m) < 0.15 * min(m, 1 - m)
             best, second = planar(geo, (u, v))
             a = parse_answer(out[1 + 2 * k]); tg = parse_answer(out[2 + 2 * k])
             cases += 1
@@ -151,9 +180,12 @@ def oracle(seed, tier):
             nontriv += 1
             def bad(msg):
                 viol.append({"what": "%s: %s (u=%.6g, v=%.6g in the perpendicular plane; trench length %.4g, azimuth %.4g)" % ("fault" if fault else "slab", msg, u, v, ln, az), "world_json": w, "world": path,
-                             "cmd": lines[1 + 2 * k], "segments": w["features"][0]["segments"]})
+                             "cmd": lines[1 + 2 * k], "segments": w["features"][0]["segments"], "probe": "collinear-trench-gap" if joint else ("collinear" if m is not None else "planar")})
             if not (abs(dl - best[1]) <= tol + 1e-9 * abs(best[1]) and abs(al_ - best[2]) <= tol + 1e-9 * abs(best[2])):
-                bad("distance_to_plane reports (%.9g, %.9g), the planar construction gives (%.9g, %.9g)" % (dl, al_, best[1], best[2])); break
+                bad("distance_to_plane reports (%.9g, %.9g), the planar construction gives (%.9g, %.9g)" % (dl, al_, best[1], best[2]))
+                if joint:
+                    continue
+                break
             # membership: thickness / truncation interpolated along the winning piece
             s = best[2]; acc = 0.0
             for sg in segs:
@@ -169,7 +201,10 @@ def oracle(seed, tier):
                 continue
             got = tg[1][0] != -1.0
             if got != inside:
-                bad("membership %s, construction says %s (distance %.9g, thickness %.6g, truncation %.6g, depth %.6g)" % (got, inside, dd, th, tt, d)); break
+                bad("membership %s, construction says %s (distance %.9g, thickness %.6g, truncation %.6g, depth %.6g)" % (got, inside, dd, th, tt, d))
+                if joint:
+                    continue
+                break
         if len(samples) < 2:
             samples.append({"world": w, "cmd": lines[1], "answer": out[1][:80]})
     return {"violations": viol[:20], "summary": {"cases": cases, "violations": len(viol), "nontrivial": nontriv, "input_distribution": dist}, "samples": samples}
